@@ -847,6 +847,19 @@ type checked struct {
 	input []zed.Value
 	data  []byte
 	paths [][]string
+	// metadata of data, parsed on demand
+	metaOf []byte
+	metaV  vng.Metadata
+}
+
+func (c *checked) meta() vng.Metadata {
+	if c.metaV == nil || len(c.metaOf) != len(c.data) || (len(c.data) > 0 && &c.metaOf[0] != &c.data[0]) {
+		c.metaOf, c.metaV = c.data, nil
+		if obj, err := vng.NewObject(bytes.NewReader(c.data)); err == nil {
+			c.metaV = obj.Metadata()
+		}
+	}
+	return c.metaV
 }
 
 var stageOrder = map[string]int{"row": 0, "vector": 1, "project": 2}
@@ -981,9 +994,14 @@ func runCase(c Case) *vt.Outcome {
 		o.Fail = f
 		return o
 	}
+	zctx := c.Seq.Zctx
+	if zctx == nil {
+		zctx = zed.NewContext()
+	}
+	ck := &checked{zctx: zctx, input: input, data: data, paths: c.Paths}
 	var st metaStats
-	if obj, err := vng.NewObject(bytes.NewReader(data)); err == nil {
-		walkMeta(obj.Metadata(), &st)
+	if m := ck.meta(); m != nil {
+		walkMeta(m, &st)
 	}
 	lab(st.constCol > 0, "const-col")
 	lab(st.dictCol > 0, "dict-col(<=256)")
@@ -995,12 +1013,6 @@ func runCase(c Case) *vt.Outcome {
 	lab(st.map_ > 0, "map-vector")
 	anyNull := st.nulls > 0
 	o.NonTrivial = len(input) > 0 && (st.constCol > 0 || st.dictCol > 0 || anyNull || ntypes >= 2)
-
-	zctx := c.Seq.Zctx
-	if zctx == nil {
-		zctx = zed.NewContext()
-	}
-	ck := &checked{zctx: zctx, input: input, data: data, paths: c.Paths}
 
 	// ---- row path
 	if f := withNeutralised(o, "row", ck, checkRow); f != nil {
